@@ -1,7 +1,7 @@
 """C14 - JSON snapshots are canonical and lossless."""
 import json
 from runner import Prop
-from common import hx, unhx
+from common import hx, unhx, DRIFT
 import gen as G
 import genjson as J
 
@@ -143,16 +143,25 @@ class C14(Prop):
                         fails.append({"msg": "stored text is not the input value: %s" % ast[:80]})
                 except ValueError:
                     fails.append({"msg": "stored text does not parse: %r" % unhx(t)[:60]})
-        # a Go value is stored as its standard JSON encoding would be if handed over as []byte (`std`, computed by the harness
-        # through the same library path): "the same text for all three" input forms
+        # a Go value against its json.Marshal text handed over as []byte (`std`, computed by the harness through the same library
+        # path). Judged: both are accepted, and both stored texts hold the SAME JSON VALUE. That the two TEXTS are equal byte for
+        # byte is tie-level only (the model's value form is json.Marshal): an encoder that leaves `<`, `>`, `&` readable
+        # (harmless/Q14 = seeded/C14-P, the same edit read both ways by two independent agents) is "a standard JSON encoding" too.
         for raw, r_ in zip(raw_ops, res):
-            if raw.get("form") in ("value", "rawmsg"):
+            if raw.get("form") in ("value", "rawmsg") and not raw.get("deep"):
                 std = r_[2].get("std", "-")
                 if std == "!" and r_[2].get("valid") == "1":
                     fails.append({"msg": "jsonsnap %s: a Go value is accepted but its standard JSON encoding, as []byte, is rejected" % r_[1]})
                 elif std not in ("-", "!") and r_[2].get("valid") == "1" and std != r_[2].get("text"):
-                    fails.append({"msg": "jsonsnap %s: a Go value is stored differently from its standard JSON encoding handed over as []byte: %r vs %r" % (
-                        r_[1], unhx(r_[2].get("text"))[:80], unhx(std)[:80])})
+                    try:
+                        same = json.loads(unhx(std).decode("utf-8", "surrogateescape")) == json.loads(unhx(r_[2].get("text")).decode("utf-8", "surrogateescape"))
+                    except (ValueError, RecursionError):
+                        same = True      # (unreadable for Python: left to the tie)
+                    if not same:
+                        fails.append({"msg": "jsonsnap %s: a Go value and its standard JSON encoding handed over as []byte store different JSON values: %r vs %r" % (
+                            r_[1], unhx(r_[2].get("text"))[:80], unhx(std)[:80])})
+                    else:
+                        DRIFT["Go value stored in another spelling than its json.Marshal text"] += 1
         # malformed stream: judged by a strict parser
         for (name, kv), (_, idx, o), raw in zip(jops, res, raw_ops):
             if raw.get("maybe_bad"):
